@@ -647,6 +647,9 @@ class C06(Prop):
         "overwritten by a dict (F-C06b corner excluded)",
         "keys are not names of real attributes/dict-protocol methods under attribute syntax",
         "the environment level after load_shell_env is taken as observed (its content is C16's subject)",
+        "after a merge=False load or a re-pointing the history is judged only if the next call merges "
+        "(merge(), a dict-level reload, load_shell_env); values are of the modelled leaf kinds "
+        "(an uncopyable value: known finding F-C06i, extra check)",
     ]
     not_modelled = [
         "state of a Config after merge() raised (histories end at the first exception that is not "
